@@ -194,7 +194,12 @@ func (rc *LRURevisionCache) Peek(ctx context.Context, docID string, versionStrin
 	if value == nil {
 		return DocumentRevision{}, false
 	}
+	if !value.lock.TryRLock() {
+		// a load or store of this value is in flight - not (yet) resident
+		return DocumentRevision{}, false
+	}
 	docRev, err := value.asDocumentRevision(nil)
+	value.lock.RUnlock()
 	if err != nil {
 		return DocumentRevision{}, false
 	}
